@@ -53,6 +53,7 @@ package preprocessor
 //@   property C17
 //@   attr hooked @C01 inputCh,outputCh
 //@   attr cancellable @C03 inputCh,outputCh,ResumeCh
+//@   attr cancellable @C14 inputCh+PauseCh
 //@   local ackd int = 0
 //@   after selrecv(PauseCh): ackd = 1
 //@   after selsend(ResumeCh): ackd = 0
